@@ -345,3 +345,8 @@ def run(ctx: Ctx, rep: Report, tier: str) -> None:
     from .c01 import log_keywords_pass
 
     log_keywords_pass(ctx, rep, rid="R11.9")
+
+
+# what the later rounds (seeding rounds 2-5, refactor twins, defect hunt) added to what the check decides
+LATER_ROUNDS = "the skip options are independent and monotone on every path, ungroup always flattens, the report follows item order, log keywords pass the option word test"
+EXPLANATION = EXPLANATION.replace(" Does not decide", " Later rounds added: " + LATER_ROUNDS + ". Does not decide", 1) if " Does not decide" in EXPLANATION else EXPLANATION + " Later rounds added: " + LATER_ROUNDS + "."
